@@ -13,9 +13,10 @@ def handles(op):
     return [int(op[1:].split(':')[0])]
 
 def slice_of(pre, D):
-    """History.slice: the calls of [pre] that can reach the handles D (backward pass)"""
+    """History.slice of the write-free history (C16_history_without_writes: kalign_write_msa is read-only, so the fresh process
+    does not repeat the writes): the calls of [pre], writes dropped, that can reach the handles D (backward pass)"""
     D = set(D); keep = []
-    for op in reversed(pre):
+    for op in reversed([o for o in pre if o[0] not in 'WO']):
         hs = handles(op)
         if D & set(hs):
             keep.append(op); D |= set(hs)
@@ -118,6 +119,36 @@ def run(ck):
         hists.append(['R0:' + big, 'A0:4:5:%d:%d:%d' % (gen.NG, gen.NG, gen.NG), 'O0:clu:' + os.path.join(tmp, 'obig1'), 'O0:fasta:' + os.path.join(tmp, 'obig2'), 'F0'])
         hists.append(['R1:' + pool['protein'][0], 'A1:1:5:%d:%d:%d' % (gen.NG, gen.NG, gen.NG), 'O1:msf:' + os.path.join(tmp, 'op1'), 'R2:' + big, 'A2:1:5:%d:%d:%d' % (gen.NG, gen.NG, gen.NG),
                       'O2:fasta:' + os.path.join(tmp, 'op2'), 'O1:fasta:' + os.path.join(tmp, 'op3'), 'F1', 'F2'])
+        # an alignment read from a file, WRITTEN (or compared) before it is realigned: the write / compare must not leave the object in
+        # a state the later run trips over (explicit orders; the random histories reach them rarely)
+        for ai, (ap, akind) in enumerate(pool['aln'][:6 if quick else 20]):
+            f1 = ['fasta', 'msf', 'clu'][ai % 3]
+            hists.append(['R0:' + ap, ('W0' if ai % 2 == 0 else 'O0') + ':%s:%s' % (f1, os.path.join(tmp, 'xw%d' % ai)), 'A0:%d:5:%d:%d:%d' % (rng.choice([1, 4]), gen.NG, gen.NG, gen.NG),
+                          'W0:fasta:' + os.path.join(tmp, 'xv%d' % ai), 'F0'])
+            if ai % 3 == 0:
+                hists.append(['R0:' + ap, 'R1:' + ap, 'C0:1', 'A0:1:5:%d:%d:%d' % (gen.NG, gen.NG, gen.NG), 'W0:clu:' + os.path.join(tmp, 'xc%d' % ai), 'C0:1', 'F0', 'F1'])
+            ck.count('explicit history: aligned input written or compared before the run')
+        # records that share name AND length (nothing distinguishes them for the canonical sort): their processing order must not
+        # depend on what the process did before (heap layout, earlier objects)
+        for di in range(6 if quick else 30):
+            kind = 'protein' if di % 2 == 0 else 'dna'
+            alpha = gen.PROT if kind == 'protein' else gen.DNA
+            base = gen.rand_seq(rng, alpha, rng.range(18, 40))
+            def variant(x):
+                y = gen.mutate(rng, x, alpha, 12, 0)
+                i, j = sorted([rng.below(len(y) - 2), rng.below(len(y) - 2)])
+                if j - i < 3: j = min(len(y) - 1, i + 4)
+                return y[:i] + y[i + 1:j] + rng.choice(alpha) + y[j:]         # one residue deleted, one inserted further on: same length
+            seqs = [variant(base), variant(base), gen.mutate(rng, base, alpha, 10, 6), gen.mutate(rng, base, alpha, 10, 6), variant(base)]
+            L = len(seqs[0]); seqs = [(x + base)[:L] if i in (0, 1, 4) else x for i, x in enumerate(seqs)]
+            names = ['SAME_NAME', 'SAME_NAME', 'ref%d' % di, 'hom%d' % di, 'SAME_NAME']
+            dp = os.path.join(tmp, 'dup%d.fa' % di); open(dp, 'w').write(gen.fasta(names, seqs))
+            other = pool['protein' if di % 2 else 'dna'][di % 3]
+            pre = [['R1:' + other, 'A1:1:5:%d:%d:%d' % (gen.NG, gen.NG, gen.NG), 'F1'],
+                   ['R1:' + big, 'A1:4:5:%d:%d:%d' % (gen.NG, gen.NG, gen.NG), 'R2:' + other, 'F1', 'F2'],
+                   ['K:1:5:%d:%d:%d:%s' % (gen.NG, gen.NG, gen.NG, ','.join(gen.hexs(x) for x in seqs[2:])), 'R3:' + other, 'R1:' + pool['bad'][0], 'F3']][di % 3]
+            hists.append(pre + ['R0:' + dp, 'A0:1:5:%d:%d:%d' % (gen.NG, gen.NG, gen.NG), 'W0:fasta:' + os.path.join(tmp, 'dw%d' % di), 'F0'])
+            ck.count('explicit history: records sharing name and length, after other objects were created and freed')
         # ---- all histories in ONE process -----------------------------------------------------------------------
         lines = ['hist ' + ' '.join(ops) for ops in hists]
         if os.environ.get('KV_KEEP_TMP'):
